@@ -10,7 +10,9 @@ functions, lemmas) with directive blocks:
     //@@ vis <text>                       replace the visibility prefix (e.g. `pub`)
     //@@ x2 <n>                           rule X2 (step_by desugaring) must fire exactly n times
     //@@ subst <n> `old` => `new`         declared textual rule, must fire exactly n times (code regions only)
+    //@@ resub <n> `regex` => `new`       the same with a (whitespace-tolerant) regular expression; line count preserved by padding
     //@@ rename <old> <new> [from `<anchor>`]   rule X4 (alpha-renaming to a fresh name)
+    //@@ x7 <k>                           rule X7 (`for x in &v {` with `continue` => index loop) on loop number k
     //@@ x5 <n>                           rule X5 (#[async_generic] sync expansion: `if _sync {A} else {B}` => `{A}`), n times
     //@@ cfg <feature>=on|off             rule X6 (resolve cfg(feature) attributes inside the function)
     //@@ name <new>                       rename the extracted fn itself (for a second instantiation of the same source)
@@ -282,6 +284,43 @@ def apply_cfg(text, feature, on):
     return text, n
 
 
+def apply_x7(text, k):
+    """rule X7: `for P in &E {` (loop number k of the function) => `let mut __iK = 0; while __iK < E.len() { let P = &E[__iK];
+    __iK += 1;` - Verus' for loops do not support `continue`; the increment at the loop head keeps its meaning"""
+    heads = loop_heads(text)
+    if k >= len(heads):
+        raise ExtractError('X7: loop #%d not found' % k)
+    kw, brace = heads[k]
+    m = re.match(r'for\s+(\w+)\s+in\s+&([^\n{]+?)\s*$', text[kw:brace])
+    if not m:
+        raise ExtractError('X7: loop #%d is not of the form `for x in &expr {`' % k)
+    P, E = m.group(1), m.group(2).strip()
+    new = 'let mut __i%d = 0; while __i%d < %s.len() { let %s = &%s[__i%d]; __i%d += 1;' % (k, k, E, P, E, k, k)
+    return text[:kw] + new + text[brace + 1:]
+
+
+def apply_resub(text, pat, repl):
+    """declared textual rule with a regular expression (whitespace-tolerant); the replacement is padded with the
+    newlines of the matched text so that line numbers are preserved"""
+    code = strip_map(text)
+    out = []
+    last = 0
+    n = 0
+    for m in re.finditer(pat, text):
+        if code[m.start()] != text[m.start()]:
+            continue   # match starts inside a comment or string
+        out.append(text[last:m.start()])
+        r = m.expand(repl)
+        missing = m.group(0).count('\n') - r.count('\n')
+        if missing < 0:
+            raise ExtractError('resub replacement has more lines than the match')
+        out.append(r + '\n' * missing)
+        last = m.end()
+        n += 1
+    out.append(text[last:])
+    return ''.join(out), n
+
+
 def apply_rename(text, old, new, anchor):
     """rule X4: alpha-rename identifier `old` to the fresh name `new`; with an anchor the renaming
     starts at the binding on the first line that starts with the anchor (Rust shadowing scope)"""
@@ -366,6 +405,8 @@ class FnBlock:
         self.x2 = 0
         self.substs = []      # (n, old, new)
         self.renames = []     # (old, new, from_anchor or None)
+        self.resubs = []      # (n, regex, replacement)
+        self.x7 = []          # loop ordinals to desugar: for P in &E {..}  =>  index loop
         self.newname = None
         self.x5 = None        # expected number of `if _sync` reductions
         self.cfgs = []        # (feature, on?)
@@ -409,6 +450,14 @@ def render_fn(repo, blk, tmpl_line):
         if k != n:
             raise ExtractError('%s::%s: subst %r fired %d times, unit records %d' % (blk.file, blk.name, old, k, n))
         info['rules'].setdefault('subst', []).append({'old': old, 'new': new, 'fired': k})
+    for k7 in sorted(blk.x7, reverse=True):
+        text = apply_x7(text, k7)
+        info['rules'].setdefault('X7', []).append(k7)
+    for (n, pat, repl) in blk.resubs:
+        text, k = apply_resub(text, pat, repl)
+        if k != n:
+            raise ExtractError('%s::%s: resub %r fired %d times, unit records %d' % (blk.file, blk.name, pat, k, n))
+        info['rules'].setdefault('subst', []).append({'regex': pat, 'new': repl, 'fired': k})
     for (old, new, anchor) in blk.renames:
         text, k = apply_rename(text, old, new, anchor)
         info['rules'].setdefault('X4', []).append({'old': old, 'new': new, 'from': anchor, 'fired': k})
@@ -671,6 +720,9 @@ def generate(repo, tmpl_path, probe=False):
                         elif d2.startswith('name '):
                             blk.newname = d2[5:].strip()
                             cur = None
+                        elif d2.startswith('x7 '):
+                            blk.x7.append(int(d2[3:]))
+                            cur = None
                         elif d2.startswith('x5 '):
                             blk.x5 = int(d2[3:])
                             cur = None
@@ -685,6 +737,12 @@ def generate(repo, tmpl_path, probe=False):
                             if not m:
                                 raise ExtractError('bad subst directive at template line %d' % (i + 1))
                             blk.substs.append((int(m.group(1)), m.group(2), m.group(3)))
+                            cur = None
+                        elif d2.startswith('resub '):
+                            m = re.match(r'resub\s+(\d+)\s+`(.*)`\s*=>\s*`(.*)`$', d2)
+                            if not m:
+                                raise ExtractError('bad resub directive at template line %d' % (i + 1))
+                            blk.resubs.append((int(m.group(1)), m.group(2), m.group(3)))
                             cur = None
                         elif d2.startswith('rename '):
                             m = re.match(r'rename\s+(\w+)\s+(\w+)(\s+from\s+`(.*)`)?$', d2)
